@@ -204,6 +204,12 @@ func filterRecordsFromSearchQuery(query *structs.SearchQuery, segmentSearch *Seg
 		doRecLevelSearch = true
 	}
 
+	if query.MatchFilter != nil && query.MatchFilter.NegateMatch {
+		// The dict encoded search above only marks the records that contain the words,
+		// the negation is applied in the record level loop below.
+		doRecLevelSearch = true
+	}
+
 	// we skip rawsearching for columns that are dict encoded,
 	// since we already search for them in the above call to applyColumnarSearchUsingDictEnc
 	for dcname := range deCnames {
